@@ -499,7 +499,118 @@ func genCborTags(g *G, tier string, emit func(string)) {
 		g.cborItem(0, &item)
 		emit(head + " | " + hexOrDash(item))
 		_ = t
+		// the same document as foreign CBOR would frame it: arrays and maps of indefinite length (each with
+		// probability 1/2; all of them; arrays only), tags in place
+		for _, mode := range []int{0, 1, 2} {
+			if out, ok := cborReframe(bs, g, mode); ok {
+				emit(head + " | " + hexOrDash(out))
+			}
+		}
 	}
+	// directed: tagged and untagged items side by side in indefinite arrays, tagged indefinite containers
+	{
+		hdr := "(env (20 i64) (21 s (pt i))) (atlas 0 (e (st 20) 7 (smap (fld 72 (0) i64 0 0))) (e (st 21) 300 (smap (fld 73 (0) s 0 0) (fld 6e (1) (pt i) 0 0))))"
+		circle := "c7a1617205"
+		square := "d9012ca26173616161" + "6ef6"
+		plain := []string{"01", "a1617206", "80", "6161", "f6"}
+		for _, fr := range [][2]string{{"9f", "ff"}, {"82", ""}, {"83", ""}} {
+			for _, a := range []string{circle, square} {
+				for _, b := range append([]string{circle, square}, plain...) {
+					items := a + b
+					if fr[0] == "83" {
+						items += a
+					}
+					emit(hdr + " | " + fr[0] + items + fr[1])
+					emit(hdr + " | " + fr[0] + b + a + map[bool]string{true: b, false: ""}[fr[0] == "83"] + fr[1])
+				}
+			}
+		}
+		emit(hdr + " | c79fa1617205ff")
+		emit(hdr + " | c79fc7a1617205ff")
+		emit(hdr + " | 9f9fc7a161720501ff02ff")
+		emit(hdr + " | bf6161c7a161720561620161639f" + circle + "01ffff")
+	}
+}
+
+// cborReframe re-emits a well-formed definite-length CBOR item with its arrays and maps turned into
+// indefinite-length ones: mode 0 each with probability 1/2, 1 all, 2 arrays only.
+func cborReframe(in []byte, g *G, mode int) ([]byte, bool) {
+	var out []byte
+	var walk func(pos int) (int, bool)
+	walk = func(pos int) (int, bool) {
+		if pos >= len(in) {
+			return 0, false
+		}
+		ib := in[pos]
+		major, ai := ib>>5, ib&0x1f
+		hl, val := 1, uint64(ai)
+		switch {
+		case ai < 24:
+		case ai == 24:
+			hl = 2
+		case ai == 25:
+			hl = 3
+		case ai == 26:
+			hl = 5
+		case ai == 27:
+			hl = 9
+		default:
+			return 0, false // indefinite or reserved: not produced by the marshaller
+		}
+		if pos+hl > len(in) {
+			return 0, false
+		}
+		if hl > 1 {
+			val = 0
+			for _, b := range in[pos+1 : pos+hl] {
+				val = val<<8 | uint64(b)
+			}
+		}
+		switch major {
+		case 0, 1, 7:
+			out = append(out, in[pos:pos+hl]...)
+			return pos + hl, true
+		case 2, 3:
+			end := pos + hl + int(val)
+			if val > uint64(len(in)) || end > len(in) {
+				return 0, false
+			}
+			out = append(out, in[pos:end]...)
+			return end, true
+		case 6:
+			out = append(out, in[pos:pos+hl]...)
+			return walk(pos + hl)
+		}
+		n := val
+		if major == 5 {
+			n *= 2
+		}
+		if val > uint64(len(in)) {
+			return 0, false
+		}
+		indef := mode == 1 || (mode == 0 && g.chance(0.5)) || (mode == 2 && major == 4)
+		if indef {
+			out = append(out, major<<5|31)
+		} else {
+			out = append(out, in[pos:pos+hl]...)
+		}
+		p := pos + hl
+		for i := uint64(0); i < n; i++ {
+			var ok bool
+			if p, ok = walk(p); !ok {
+				return 0, false
+			}
+		}
+		if indef {
+			out = append(out, 0xff)
+		}
+		return p, true
+	}
+	end, ok := walk(0)
+	if !ok || end != len(in) {
+		return nil, false
+	}
+	return out, true
 }
 
 // ---------- history (C17) ---------------------------------------------------------------
@@ -637,6 +748,12 @@ func runHistory(payload string) string {
 			}
 			good = append(good, -1-i)
 		}
+		if fmtc == "j" && i%2 == 0 {
+			// JSON poison items: each fails inside the number, string or literal scanner on its last byte
+			// (the byte is consumed), leaving the stream at the separator before the next item
+			stream.WriteString(jsonPoison[(i/2)%len(jsonPoison)] + " ")
+			good = append(good, -1-i)
+		}
 	}
 	// (2) long-lived unmarshaller over the whole stream
 	u := refmt.NewUnmarshallerAtlased(do, bytes.NewReader(stream.Bytes()), atl)
@@ -644,7 +761,10 @@ func runHistory(payload string) string {
 		if i < 0 { // poison item: the call must fail, and must not disturb the calls after it
 			var e error
 			var p bool
-			if (-1-i)%4 == 0 {
+			if fmtc == "j" {
+				var bad interface{}
+				e, p = safely(func() error { return u.Unmarshal(&bad) })
+			} else if (-1-i)%4 == 0 {
 				var bad []int64
 				e, p = safely(func() error { return u.Unmarshal(&bad) })
 			} else {
@@ -724,6 +844,8 @@ func runHistory(payload string) string {
 	}
 	return strings.Join(outs, " ;; ") + fmt.Sprintf(" | same=%d", b2i(same))
 }
+
+var jsonPoison = []string{"-x", "\"ab\\q", "1.}", "\"\x01", "1e+", "\"\\u12G", "-", "tru", "\"\\q"}
 
 func genHistory(g *G, tier string, emit func(string)) {
 	n := 8000
